@@ -443,8 +443,12 @@ def t_reserved( ctx ):
         return res
     gtxt = txt( guard.test )
     raises = bool( guard.body ) and isinstance( guard.body[-1], ast.Raise )
-    leaf_stores = [ n for n in ast.walk( si ) if is_call_to( n, '__setitem__' ) and isinstance( n.func, ast.Attribute )
-                    and isinstance( n.func.value, ast.Call ) and call_name( n.func.value ) == 'super' ]
+    VALUE_ = si.args.args[2].arg
+    def fresh_level_( e ):		# a local bound to a new, empty level: <name> = dotdict()
+        return isinstance( e, ast.Name ) and any( isinstance( a_, ast.Assign ) and any( dotted( t_ ) == e.id for t_ in a_.targets ) and is_call_to( a_.value, 'dotdict' ) and not a_.value.args for a_ in ast.walk( si ))
+    super_sets = [ n for n in ast.walk( si ) if is_call_to( n, '__setitem__' ) and isinstance( n.func, ast.Attribute )
+                   and isinstance( n.func.value, ast.Call ) and call_name( n.func.value ) == 'super' ]
+    leaf_stores = [ n for n in super_sets if not ( len( n.args ) == 2 and fresh_level_( n.args[1] )) ]
     if not leaf_stores:
         raise AnalysisError( 'dotdict_base.__setitem__: leaf store super().__setitem__ not found' )
     # every statement that INSERTS a caller-named entry into the underlying mapping - the leaf store super().__setitem__( name, ... ) and the
@@ -454,7 +458,8 @@ def t_reserved( ctx ):
     cfg = CFG( si )
     gnodes = [ n for n in cfg.nodes if n.kind == 'test' and n.stmt is guard ]
     level_stores = [ n for n in ast.walk( si ) if is_call_to( n, 'setdefault' ) and isinstance( n.func, ast.Attribute )
-                     and isinstance( n.func.value, ast.Call ) and call_name( n.func.value ) == 'super' ]
+                     and isinstance( n.func.value, ast.Call ) and call_name( n.func.value ) == 'super' ] \
+                 + [ n for n in super_sets if len( n.args ) == 2 and fresh_level_( n.args[1] ) ]
     KEYNAME = None
     for c_ in ast.walk( guard.test ):
         if isinstance( c_, ast.Compare ) and isinstance( c_.ops[0], ast.In ) and '__invalid_keys__' in attrs_in( c_.comparators[0] ) and isinstance( c_.left, ast.Name ):
@@ -502,6 +507,62 @@ def t_reserved( ctx ):
         else:
             res.bad( src, node, 'name %r is found by attribute lookup but is not in __invalid_keys__' % name,
                      'd.%s = v is accepted, after which d.%s returns the method while d[%r] returns v' % ( name, name, name ))
+    return res
+
+
+@rule( 'D-ATOMIC', props=( 'C16', ), floor=3 )
+def d_atomic( ctx ):
+    """dotdict assignment and deletion by path: (1) the remainder of the path is tested for PRESENCE ( `rest is not None` ) - an empty
+    remainder ( a trailing '.' ) is a KeyError as it is for lookup; tested by truthiness, `d['a.b.'] = 5` silently replaces the whole level
+    a.b by 5; (2) a level that has to be CREATED on the way becomes part of the tree only after the assignment below it succeeded ( no
+    setdefault( name, dotdict() ) ahead of the descent ): a refused assignment ( reserved name, a list that is not there ) must leave the
+    tree as it was - an empty level left behind looks up, is a member and is listed; (3) deletion through something that is not a level is
+    a KeyError like lookup and membership, not the TypeError of the object found there"""
+    res = Result( 'D-ATOMIC' )
+    src = ctx.src( 'dotdict.py' )
+    si = src.get( 'dotdict_base.__setitem__' )
+    M = Matcher()
+    if M.find( si, '( _mine, _rest ) = self._resolve( key ) if \'.\' in key else ( key, None )' ) is None:
+        raise AnalysisError( 'dotdict_base.__setitem__: split of the key into ( first segment, remainder ) not found' )
+    MINE, REST = M.name( '_mine' ), M.name( '_rest' )
+    branch = [ i for i in si.body if isinstance( i, ast.If ) and REST in names_in( i.test ) ]
+    if not branch:
+        raise AnalysisError( 'dotdict_base.__setitem__: the branch on the remainder of the path not found' )
+    b = branch[0]
+    if pmatch( b.test, '%s is not None' % REST ) is not None:
+        empties = [ i for i in b.body if isinstance( i, ast.If ) and pmatch( i.test, 'not %s' % REST ) is not None and any( isinstance( x, ast.Raise ) for x in i.body ) ]
+        if empties:
+            res.ok( src, b, 'the remainder is tested for presence; an empty remainder ( trailing "." ) raises KeyError' )
+        else:
+            res.bad( src, b, '__setitem__: an empty remainder ( trailing "." ) is not refused', 'the value is stored under the empty key of the level, where nothing finds it' )
+    else:
+        res.bad( src, b, '__setitem__ tests the remainder of the path by truthiness ( %s )' % norm_text( b.test ), "an empty remainder ( d['a.b.'] = 5 ) takes the leaf branch: the whole level a.b is silently replaced by 5, and d['a.b.'] then raises KeyError" )
+    # (2) creation of a level
+    early = [ c for st_ in b.body for c in ast.walk( st_ ) if isinstance( c, ast.Call ) and isinstance( c.func, ast.Attribute ) and c.func.attr == 'setdefault' and len( c.args ) == 2 and is_call_to( c.args[1], 'dotdict' ) ]
+    attach = [ c for st_ in b.body for c in ast.walk( st_ ) if isinstance( c, ast.Call ) and isinstance( c.func, ast.Attribute ) and c.func.attr == '__setitem__' and len( c.args ) == 2 and dotted( c.args[0] ) == MINE ]
+    descents = [ a for st_ in b.body for a in ast.walk( st_ ) if isinstance( a, ast.Assign ) and isinstance( a.targets[0], ast.Subscript ) and dotted( a.targets[0].slice ) == REST ]
+    if early:
+        res.bad( src, early[0], '__setitem__ creates the missing level ( %s ) before it descends' % norm_text( early[0] )[:50], 'when the assignment below is refused ( a reserved name, an index into a list that is not there ) the empty level stays: a refused assignment has changed the tree' )
+    elif attach and descents and all( any( d_.lineno < a_.lineno and src.parent.get( d_ ) is src.parent.get( src.parent.get( a_ )) for d_ in descents ) for a_ in attach ):
+        res.ok( src, attach[0], 'a new level is attached only after the assignment below it succeeded' )
+    elif not attach:
+        res.bad( src, b, '__setitem__: no store of a newly created level found', 'a path through a level that does not exist yet must create it' )
+    else:
+        res.bad( src, attach[0], '__setitem__ attaches a new level before the assignment below it', 'a refused assignment leaves an empty level behind' )
+    # (3) deletion
+    di = src.get( 'dotdict_base.__delitem__' )
+    dels = [ d_ for d_ in ast.walk( di ) if isinstance( d_, ast.Delete ) and isinstance( d_.targets[0], ast.Subscript ) and isinstance( d_.targets[0].value, ast.Name ) ]
+    if not dels:
+        raise AnalysisError( 'dotdict_base.__delitem__: the descent `del <target>[<rest>]` not found' )
+    T = dels[0].targets[0].value.id
+    cfg = CFG( di )
+    guards = [ n for n in cfg.nodes if n.kind == 'test' and isinstance( n.stmt, ast.If ) and pmatch( n.expr, 'not isinstance( %s, dotdict_base )' % T ) is not None and any( isinstance( x, ast.Raise ) for x in n.stmt.body ) ]
+    tries = [ t for t in src.ancestors( dels[0] ) if isinstance( t, ast.Try ) and any( dotted( h.type ) in ( 'TypeError', 'Exception' ) or h.type is None for h in t.handlers ) ]
+    dn = cfg.node_of( dels[0] )
+    if ( guards and cfg.must_pass( cfg.entry, dn, guards, correlated=False )) or tries:
+        res.ok( src, dels[0], 'deletion through something that is not a level raises KeyError' )
+    else:
+        res.bad( src, dels[0], '__delitem__ descends into whatever the first segment holds', "del d['a.b'] with d.a a number, a string or a list raises the TypeError of that object, where lookup, membership and pop report the same path as absent ( KeyError / False )" )
     return res
 
 
@@ -559,7 +620,8 @@ def d_delegate( ctx ):
     conv = [ n for n in scfg.nodes if n.kind == 'test' and pmatch( n.expr, 'isinstance( value, dict ) and not isinstance( value, dotdict_base )' ) ]
     leaf = [ n for n in scfg.nodes if n.kind == 'stmt' and n.stmt is not None and (
         ( isinstance( n.stmt, ast.Assign ) and isinstance( n.stmt.targets[0], ast.Subscript ) and is_call_to( n.stmt.targets[0].value, '__getitem__' ) and dotted( n.stmt.value ) == 'value' )
-        or any( is_call_to( c, '__setitem__' ) and isinstance( c.func, ast.Attribute ) and is_call_to( c.func.value, 'super' ) for c in ast.walk( n.stmt ))) ]
+        or any( is_call_to( c, '__setitem__' ) and isinstance( c.func, ast.Attribute ) and is_call_to( c.func.value, 'super' )
+                and not ( len( c.args ) == 2 and isinstance( c.args[1], ast.Name ) and c.args[1].id != si0.args.args[2].arg ) for c in ast.walk( n.stmt ))) ]
     if conv and len( leaf ) >= 2 and all( scfg.must_pass( scfg.entry, l, conv, correlated=False ) for l in leaf ) and pfind( si0, 'value = self.__class__( value )' ):
         res.ok( src, conv[0].stmt, '__setitem__: plain dicts are converted to a dotdict level before every leaf store (%d stores)' % len( leaf ))
     else:
